@@ -14,7 +14,7 @@ use std::time::Duration;
 
 pub static PROP: Prop = Prop {
     id: "C14",
-    rule: "cases: in a fresh child process per case, a chain of 1-4 handlers, each of one of 12 kinds {global function, prefix operator, infix operator, postfix operator, SETTER operator, context function called as f(...), context function reached by the bare name f - alone, inside a list of names, as a map key, as a call argument, in a condition -, context function read as an assignment target (f = 1)}; every handler but the last re-enters the engine by executing a program that invokes the next handler; the last performs one of 11 re-entrant actions {registering the very function that the enclosing call is about to invoke, parse_expression, execute with a fresh context (program using functions and all operator kinds), execute on the SAME context (read), execute on the same context (assignment), register_function, register_prefix_op, register_infix_op, register_postfix_op, lock the evaluating context's public handle and read it, get_variable/set_variable through a second handle}. Oracle (1, deterministic): the first thing every handler does is try_lock on all four registries, the descriptor store and the evaluating context: on this single-threaded evaluation every lock must be free; (2, behavioural): the action is really performed under a 10 s watchdog (normal: microseconds) and the outer evaluation must return the value computed by hand from the chain. The 12 x 11 single-handler matrix is enumerated exhaustively; chains are generated. Non-trivial: every case (each combines handler kinds with a re-entrant action); distinct by (kind chain, action).",
+    rule: "cases: in a fresh child process per case, a chain of 1-4 handlers, each of one of 13 kinds {a context function called as f(...) and used again by its bare name in the same program, global function, prefix operator, infix operator, postfix operator, SETTER operator, context function called as f(...), context function reached by the bare name f - alone, inside a list of names, as a map key, as a call argument, in a condition -, context function read as an assignment target (f = 1)}; every handler but the last re-enters the engine by executing a program that invokes the next handler; the last performs one of 15 re-entrant actions {registering the very function that the enclosing call is about to invoke, re-registering under their own names all the handlers that are running at that moment, registering an infix / postfix / prefix operator whose word occurs in a later statement of the outer program that is still running (the program was read before the handler ran, so its result is the one of the reading without that operator), parse_expression, execute with a fresh context (program using functions and all operator kinds), execute on the SAME context (read), execute on the same context (assignment), register_function, register_prefix_op, register_infix_op, register_postfix_op, lock the evaluating context's public handle and read it, get_variable/set_variable through a second handle}. Oracle (1, deterministic): the first thing every handler does is try_lock on all four registries, the descriptor store and the evaluating context: on this single-threaded evaluation every lock must be free; (2, behavioural): the action is really performed under a 10 s watchdog (normal: microseconds) and the outer evaluation must return the value computed by hand from the chain. The 13 x 15 single-handler matrix is enumerated exhaustively; chains are generated. Non-trivial: every case (each combines handler kinds with a re-entrant action); distinct by (kind chain, action).",
     assumptions: &[
         "a watchdog expiry must reproduce on two more runs to count as a deadlock; the try_lock probe gives the precise lock",
         "lock state of the registries is read through the cfg-guarded locks_free() hook",
@@ -37,12 +37,18 @@ fn budget(t: Tier) -> Budget {
     }
 }
 
-pub const KINDS: [&str; 12] = [
+pub const KINDS: [&str; 13] = [
+    // the context function is used again after its first invocation has re-entered the engine
+    "ctx-function-twice",
     "global-function", "prefix-op", "infix-op", "postfix-op", "setter-op", "ctx-function-call", "ctx-function-bare", "ctx-function-assign-target",
     "ctx-function-bare-in-list", "ctx-function-bare-in-map", "ctx-function-bare-as-argument", "ctx-function-bare-in-condition",
 ];
-pub const ACTIONS: [&str; 11] = [
+pub const ACTIONS: [&str; 15] = [
     "register-callee",
+    // re-register, under their own names, all the handlers that are running right now
+    "register-running",
+    // register an operator whose word occurs later in the outer program, which is still running
+    "register-infix-used-later", "register-postfix-used-later", "register-prefix-used-later",
     "parse", "execute-fresh", "execute-same-context-read", "execute-same-context-assign", "register-function", "register-prefix", "register-infix", "register-postfix",
     "lock-context-handle", "second-handle-get-set",
 ];
@@ -71,6 +77,7 @@ fn program_for(kind: &str, level: usize) -> String {
         "setter-op" => format!("x vh_cs{} 1", level),
         // the same name at every level: each level has its own context
         "ctx-function-call" => "cf(1) + 1".to_string(),
+        "ctx-function-twice" => "cf(1) + cf".to_string(),
         "ctx-function-bare" => "cf + 1".to_string(),
         // the bare name in positions that an implementation might resolve in bulk
         "ctx-function-bare-in-list" => "[v0 , cf , v0]".to_string(),
@@ -87,6 +94,7 @@ fn expected_for(kind: &str) -> &'static str {
         "ctx-function-bare-in-list" => "[n5,n10,n5]",
         "ctx-function-bare-in-map" => "{n10=>n5}",
         "ctx-function-bare-as-argument" => "n10",
+        "ctx-function-twice" => "n20",
         _ => "n11",
     }
 }
@@ -115,9 +123,30 @@ fn run_level(level: usize, plan: &Plan) -> Result<String, String> {
         // `vh_late` does not exist yet: the handler of its argument registers it
         text = "vh_late(vh_c0(1)) + 1".to_string();
     }
+    if level == 0 {
+        // the words are plain names while the program is read; the handler registers them as
+        // operators only while it runs, which must not change how the running program is read
+        match plan.action.as_str() {
+            "register-infix-used-later" => text.push_str(" ; 7 vh_lati 2"),
+            "register-postfix-used-later" => text.push_str(" ; 7 vh_latq"),
+            "register-prefix-used-later" => text.push_str(" ; 7 ; vh_latp 3"),
+            _ => {}
+        }
+    }
     match execute(&text, ctx) {
         Ok(v) => Ok(V::from_value(&v).key()),
         Err(e) => Err(e.to_string()),
+    }
+}
+
+fn register_handler(kind: &str, i: usize) {
+    match kind {
+        "global-function" => register_function(&format!("vh_c{}", i), Arc::new(move |_| body(i))),
+        "prefix-op" => register_prefix_op(&format!("vh_cp{}", i), Arc::new(move |_| body(i))),
+        "infix-op" => register_infix_op(&format!("vh_ci{}", i), 130, InfixOpType::CALC, InfixOpAssociativity::LEFT, Arc::new(move |_, _| body(i))),
+        "postfix-op" => register_postfix_op(&format!("vh_cq{}", i), Arc::new(move |_| body(i))),
+        "setter-op" => register_infix_op(&format!("vh_cs{}", i), 20, InfixOpType::SETTER, InfixOpAssociativity::RIGHT, Arc::new(move |_, _| body(i))),
+        _ => {}
     }
 }
 
@@ -159,6 +188,24 @@ fn body(level: usize) -> expression_engine::Result<Value> {
                         Ok(Value::from(x + rust_decimal::Decimal::from(100)))
                     }),
                 );
+                say("action-result registered");
+            }
+            "register-running" => {
+                for (i, kind) in plan.chain.iter().enumerate() {
+                    register_handler(kind, i);
+                }
+                say("action-result registered");
+            }
+            "register-infix-used-later" => {
+                register_infix_op("vh_lati", 100, InfixOpType::CALC, InfixOpAssociativity::LEFT, Arc::new(|a, _| Ok(a)));
+                say("action-result registered");
+            }
+            "register-postfix-used-later" => {
+                register_postfix_op("vh_latq", Arc::new(|v| Ok(v)));
+                say("action-result registered");
+            }
+            "register-prefix-used-later" => {
+                register_prefix_op("vh_latp", Arc::new(|_| Ok(Value::from(77))));
                 say("action-result registered");
             }
             "register-function" => {
@@ -208,14 +255,7 @@ pub fn worker() -> i32 {
     });
     *PLAN.lock().unwrap() = Some(plan.clone());
     for (i, kind) in plan.chain.iter().enumerate() {
-        match kind.as_str() {
-            "global-function" => register_function(&format!("vh_c{}", i), Arc::new(move |_| body(i))),
-            "prefix-op" => register_prefix_op(&format!("vh_cp{}", i), Arc::new(move |_| body(i))),
-            "infix-op" => register_infix_op(&format!("vh_ci{}", i), 130, InfixOpType::CALC, InfixOpAssociativity::LEFT, Arc::new(move |_, _| body(i))),
-            "postfix-op" => register_postfix_op(&format!("vh_cq{}", i), Arc::new(move |_| body(i))),
-            "setter-op" => register_infix_op(&format!("vh_cs{}", i), 20, InfixOpType::SETTER, InfixOpAssociativity::RIGHT, Arc::new(move |_, _| body(i))),
-            _ => {}
-        }
+        register_handler(kind, i);
     }
     let r = guard(|| run_level(0, &plan));
     match r {
@@ -280,6 +320,14 @@ pub fn run_case(chain: &[&str], action: &str, env: &Env, st: &mut Stats) -> Case
                 let result = out.stdout.lines().find(|l| l.starts_with("result")).unwrap_or("result ?");
                 let want = if chain[0] == "global-function" && action == "register-callee" {
                     "result n111".to_string()
+                } else if action == "register-infix-used-later" {
+                    // read before the handler ran: `7`, the name `vh_lati`, `2` - three statements
+                    "result n2".to_string()
+                } else if action == "register-postfix-used-later" {
+                    // `7`, then the unbound name `vh_latq`
+                    "result none".to_string()
+                } else if action == "register-prefix-used-later" {
+                    "result n3".to_string()
                 } else {
                     format!("result {}", expected_for(chain[0]))
                 };
@@ -344,7 +392,7 @@ fn fixed(env: &Env, st: &mut Stats) -> CaseResult {
     // every ordered pair of kinds with the most demanding actions
     for k1 in KINDS {
         for k2 in KINDS {
-            for a in ["execute-fresh", "lock-context-handle", "register-function"] {
+            for a in ["execute-fresh", "lock-context-handle", "register-function", "register-running", "register-infix-used-later"] {
                 i += 1;
                 if env.mine(i) {
                     run_case(&[k1, k2], a, env, st)?;
